@@ -158,6 +158,10 @@ fn add_counters(a: &mut Counters, b: &Counters) {
 pub struct Worker<'a> {
     pub spec: &'a WorkSpec,
     pub agg: Agg,
+    /// report the first violating case as it is (minimising inside an interpreter is too slow)
+    pub no_minimise: bool,
+    /// cap on the number of steps per generated history
+    pub steps_cap: Option<usize>,
     seen_classes: BTreeSet<String>,
     fp_seen: BTreeSet<u64>,
 }
@@ -166,7 +170,7 @@ impl<'a> Worker<'a> {
     pub fn new(spec: &'a WorkSpec) -> Self {
         let mut agg = Agg::default();
         agg.workload = spec.workload.clone();
-        Worker { spec, agg, seen_classes: BTreeSet::new(), fp_seen: BTreeSet::new() }
+        Worker { spec, agg, no_minimise: false, steps_cap: None, seen_classes: BTreeSet::new(), fp_seen: BTreeSet::new() }
     }
 
     /// Book-keeping for one evaluation. `case` builds the explicit case lazily (for replay).
@@ -204,7 +208,7 @@ impl<'a> Worker<'a> {
                 if self.seen_classes.insert(class) && self.agg.found.len() < 6 {
                     let c = case();
                     let original_steps = c.steps.len();
-                    let (mc, mv) = shrink::minimise(&c, v, opts);
+                    let (mc, mv) = if self.no_minimise { (c.clone(), v.clone()) } else { shrink::minimise(&c, v, opts) };
                     self.agg.found.push(ReplayFile {
                         property: prop.to_string(),
                         engine: "histsim".into(),
@@ -253,7 +257,7 @@ impl<'a> Worker<'a> {
         let spec = self.spec;
         let (_, _, deep) = profile(&spec.prop, false);
         let opts = RunOpts { deep_c17: deep, record_counts: false };
-        let steps_max = if spec.thorough { 120 } else { 40 };
+        let steps_max = self.steps_cap.unwrap_or(if spec.thorough { 120 } else { 40 });
         match spec.workload.as_str() {
             "hist" | "histf" => {
                 let faulting = spec.workload == "histf";
